@@ -214,10 +214,31 @@ def mut_record(init, ops):
     return r
 
 
+def alias_record(inp):
+    """sub = sl[ix]; one of the two is mutated; both are observed"""
+    ks = KmerSpec(8, 'ATG')
+    sl = SignatureList([sig(v) for v in inp['init']], ks, dtype=np.dtype('u2'))
+    r = dict(op='alias', init=list(inp['init']), ix=inp['ix'], o=inp['o'], who=inp['who'], ok=False, err='', parent_after=[], sub_after=[])
+    try:
+        sub = sl[to_index(inp['ix'])[0]]
+        r['ok'] = isinstance(sub, SignatureList)
+        try:
+            apply_op(sub if inp['who'] == 'sub' else sl, inp['o'])
+        except Exception as e:
+            r['err'] = type(e).__name__
+        r['parent_after'] = state_of(sl)
+        r['sub_after'] = state_of(sub)
+    except Exception as e:
+        r['err'] = 'indexing:' + type(e).__name__
+    return r
+
+
 class Fam(core.Family):
     judge = 'Judge_C20'
 
     def execute(self, inp):
+        if inp['op'] == 'alias':
+            return alias_record(inp)
         if inp['op'] == 'index':
             return index_record(inp)
         if inp['op'] == 'eq':
@@ -469,6 +490,42 @@ class RandomMutations(Fam):
         return rec
 
 
+class Aliasing(Fam):
+    name = 'sub-collection-independence'
+    exhaustive = True
+
+    def inputs(self, ctx):
+        self.rule = ('SignatureList of length 0..4 x every slice with start/stop in -5..5 or absent and step in {absent,1,2,-1,-2} (incl. all whole-range '
+                     'spellings), index lists and masks x 8 mutations applied to the sub-collection or to the parent: the other object must not change')
+        muts = [dict(op='delitem', i=0), dict(op='append', v=77), dict(op='insert', i=0, v=78), dict(op='setitem', i=-1, v=79), dict(op='pop', i=-1),
+                dict(op='reverse'), dict(op='clear'), dict(op='extend', vs=[80, 81])]
+        for n in range(0, 5):
+            init = [10 + i for i in range(n)]
+            ixs = list(slice_indices([-5, -n, -1, 0, 1, n, 5] if n else [-1, 0, 1], [[], [1], [2], [-1], [-2]]))
+            ixs += [dict(t='ints', v=list(range(n))), dict(t='ints', v=list(range(n))[::-1]), dict(t='mask', v=[True] * n), dict(t='ints', v=[])]
+            seen = set()
+            for ix in ixs:
+                key = core.canon(ix)
+                if key in seen:
+                    continue
+                seen.add(key)
+                for mi, o in enumerate(muts):
+                    for who in ('sub', 'parent'):
+                        if ctx.tier == 'quick' and (mi + len(key) + (who == 'sub')) % 3:
+                            continue
+                        yield dict(op='alias', init=init, ix=ix, o=o, who=who)
+
+    def nontrivial(self, inp, rec):
+        return core.short_hash(inp) if rec['ok'] and rec['err'] == '' else None
+
+    def corrupt(self, rec):
+        if rec['who'] == 'sub':
+            rec['parent_after'] = rec['parent_after'] + [5]
+        else:
+            rec['sub_after'] = rec['sub_after'] + [5]
+        return rec
+
+
 def replay_spec_histories(ctx):
     """Generator direction: TLC produces mutation histories (with the expected state after every step) from SigList;
     they are replayed on the real SignatureList and the abstract state is compared after each action."""
@@ -500,7 +557,7 @@ def replay_spec_histories(ctx):
     ctx.add_samples([dict(family='spec-history-replay', history=next(iter(hists.values())))], limit=1)
 
 
-FAMILIES = [Indexing, LongNarrow, ExtremeIndexValues, Equality, RandomMutations]
+FAMILIES = [Indexing, LongNarrow, ExtremeIndexValues, Equality, RandomMutations, Aliasing]
 
 
 def run(ctx):
